@@ -163,6 +163,9 @@ func init() {
 					shared.Add(1)
 				}
 				mu.Unlock()
+				if ce := p["cleanupfail"]; ce != "" && ce != "0" && atoi(id)%atoi(ce) == 0 {
+					t.Cleanup(func() { t.Fail() }) // an iteration cleanup that reports an error
+				}
 				if trackCleanup {
 					t.Cleanup(func() {
 						if !rec.bodyDone.Load() {
@@ -327,6 +330,24 @@ func init() {
 		opts := options.RunOptions{Scenario: "s", MaxDuration: ms(p["dur"]), Concurrency: conc, Verbose: true,
 			MaxIterations: atou64(p["maxit"]), IgnoreDropped: p["igndrop"] == "1", MaxFailures: atou64(p["maxfail"]),
 			MaxFailuresRate: atoi(p["maxfailrate"])}
+		if p["prerun"] == "1" { // an earlier run of another scenario on the same metrics instance
+			other := scenarios.New().Add(&scenarios.Scenario{Name: "other", ScenarioFn: func(*f1testing.T) f1testing.RunFn {
+				return func(t *f1testing.T) {
+					if atoi(t.Iteration)%2 == 0 {
+						t.Fail()
+					}
+				}
+			}})
+			o2 := options.RunOptions{Scenario: "other", MaxDuration: time.Second, Concurrency: 2, Verbose: true, MaxIterations: 5}
+			pr, err := run.NewRun(o2, other, &api.Trigger{Trigger: users.NewWorker(2)}, time.Second, envsettings.Settings{}, m,
+				ui.NewOutput(slog.New(&captureHandler{}), ui.NewDiscardPrinter(), false, false))
+			if err != nil {
+				return "newrun-err"
+			}
+			if _, err := pr.Do(context.Background()); err != nil {
+				return "prerun-err"
+			}
+		}
 		before := goleak.IgnoreCurrent()
 		r, err := run.NewRun(opts, scs, trig, ms(p["timeout"]), envsettings.Settings{}, m, out)
 		if err != nil {
